@@ -515,7 +515,18 @@ def check_detection_cat(case, ctx):
         warnings.simplefilter('ignore')
         det = SourceCatalog(data, SegmentationImage(seg.copy()), mask=mask,
                             convolved_data=conv)
-        cat = SourceCatalog(data2, SegmentationImage(seg.copy()), mask=mask,
+        # the measurement catalog has its own mask (same, different or none)
+        mk = case['aux_seed'] % 3
+        if mk == 0:
+            mask2 = mask
+        elif mk == 1:
+            mask2 = rng.random(data.shape) < 0.15
+            ctx.event('measurement_mask_differs')
+        else:
+            mask2 = None
+            if mask is not None:
+                ctx.event('measurement_mask_differs')
+        cat = SourceCatalog(data2, SegmentationImage(seg.copy()), mask=mask2,
                             error=error, detection_cat=det)
         ref = SourceCatalog(data, SegmentationImage(seg.copy()), mask=mask,
                             convolved_data=conv)
@@ -530,10 +541,33 @@ def check_detection_cat(case, ctx):
             # fluxes on the new data over the detection pixel set: the data
             # mask of the detection image defines the unmasked pixels
             S = (seg == l) & np.isfinite(data2)
-            if mask is not None:
-                S &= ~mask
+            if mask2 is not None:
+                S &= ~mask2
             exp = float(data2[S].sum()) if S.any() else float('nan')
             got = _val(cat, 'segment_flux', k)
+            Sdet = (seg == l) & np.isfinite(data)
+            if mask is not None:
+                Sdet &= ~mask
+            if not Sdet.any():
+                # completely masked in the detection image: which catalog
+                # decides "all masked" is not documented - not compared
+                ctx.event('masked_in_detection_image')
+                continue
+            if not S.any():
+                for c in ('segment_flux', 'min_value', 'max_value'):
+                    if not math.isnan(_val(cat, c, k)):
+                        raise Violation('detection_cat_flux',
+                                        f'label {l}: {c} = {_val(cat, c, k)!r} '
+                                        'although the measurement mask covers '
+                                        'the whole source', column=c)
+            else:
+                for c, e_ in (('min_value', float(data2[S].min())),
+                              ('max_value', float(data2[S].max()))):
+                    if _val(cat, c, k) != e_:
+                        raise Violation('detection_cat_flux',
+                                        f'label {l}: {c} = {_val(cat, c, k)!r} vs '
+                                        f'{e_!r} over the pixels left by the '
+                                        'measurement catalog\'s own mask', column=c)
             if S.any() and not close(got, exp, 1e-9, 1e-9 * float(np.abs(data2[S]).sum())):
                 if np.isfinite(data[seg == l]).all():
                     raise Violation('detection_cat_flux',
